@@ -450,5 +450,8 @@ def run_family(prop, clauses, tier, focus, count_quick, count_thorough, sig_fn=N
                         "events": [[e["e"], e.get("t"), e.get("st", e.get("slot"))] for e in t["events"]]})
     rep.assumptions += ["FakeKernel (harness/fakekernel.py) is a faithful model of fork/waitpid/SIGCHLD/killpg (cross-checked by "
                         "%d real-process executions judged on the skew-robust clauses)" % rep.cov.get("real_process_runs", 0),
-                        "signal handlers are delivered at interposed calls (the handler state is only read there)"]
+                        "signal handlers are delivered at interposed calls (the handler state is only read there); for C09 also "
+                        "before every executed line of the execution modules",
+                        "process ids are recycled, but the id of a task's own process not before Conductor has consumed that task's "
+                        "exit status"]
     return rep.finish()
